@@ -35,6 +35,11 @@ struct Event {
         if (!(cond)) ::mcrt::fail(key, __VA_ARGS__);                           \
     } while (0)
 
+// Install a handler consulted when no thread can run: return nullptr if the
+// deadlock is acceptable for this program (execution then ends normally), or a
+// message describing the violation.  Reset at the start of every execution.
+void on_deadlock(std::function<const char*()>* handler);
+
 // total-order stamp: an ordering-relevant ghost event (keeps real-time
 // relations distinguishable by the state cache).  Returns a global counter.
 uint64_t stamp();
